@@ -580,7 +580,7 @@ Proof.
     + cbn [wf_py] in Hv. apply andb_prop in Hv. destruct Hv as [Hl Hw]. apply (Hitems _ _ E); [lia|apply forallb_Forall; exact Hw|exact Ha].
     + cbn [wf_py] in Hv. apply andb_prop in Hv. destruct Hv as [Hl Hw]. apply (Hitems _ _ E); [lia|apply forallb_Forall; exact Hw|exact Ha].
   - (* map *)
-    cbn [wf_schema] in Hs. cbn [elab] in H. destruct v; try discriminate. inv_w H. injection H as <-.
+    cbn [wf_schema] in Hs. cbn [elab] in H. destruct v as [| | | | | | |l0|l0|kv]; try discriminate; try (destruct l0; discriminate). inv_w H. injection H as <-.
     apply elab_map_inv in E. cbn [typedn]. cbn [wf_py] in Hv. apply andb_prop in Hv. destruct Hv as [Hv Hw].
     apply andb_prop in Hv. destruct Hv as [Hl _]. assert (Hlen : len kv = @len (bytes * aval) x) by exact (Forall2_len _ _ _ E). split; [lia|].
     cbn [floats_ok] in Ha. apply forallb_Forall in Ha. apply forallb_Forall in Hw.
